@@ -292,6 +292,11 @@ def sign_bundle_variants_stage(ctx, rng):
         specs.append(('b1-variants', bundlelib.bundle('b1', b'https://example.com/v', None, None, [e for e, c in grp] + [bundlelib.exch(b'https://example.com/o', 200, [], b'other')])))
         specs.append(('b1-plain', bundlelib.bundle('b1', b'https://example.com/', None, None, [bundlelib.exch(b'https://example.com/', 200, [(b'Content-Type', [b'text/plain'])], b'body'), bundlelib.exch(b'https://example.com/e', 200, [], b'')])))
         specs.append(('b2-plain', bundlelib.bundle('b2', b'https://example.com/', None, None, [bundlelib.exch(b'https://example.com/', 200, [(b'Content-Type', [b'text/plain'])], b'body')])))
+        # a response that already carries a Digest field (an origin server's "sha-256=..."; empty; an MI digest): refuse, or produce something that verifies
+        for dn, dv in (('sha256', b'sha-256=I/gyE1D1pnqVZ3OTHLPTzsy8FCO0nlSI6a3ru2zmRUc='), ('empty', b''), ('mi', b'mi-sha256-03=JpaUCJeCCZVr6BXnLqsMnZxNNWoaMJHmmPvgnDGdxU8=')):
+            for ver in ('b1', 'b2'):
+                specs.append((f'{ver}-digest-{dn}', bundlelib.bundle(ver, b'https://example.com/' if ver == 'b1' else None, None, None, [bundlelib.exch(b'https://example.com/', 200, [(b'Content-Type', [b'text/plain'])], b'plain'),
+                              bundlelib.exch(b'https://example.com/digest.html', 200, [(b'Content-Type', [b'text/html']), (b'Digest', [dv])], b'<html>has a digest</html>')])))
         wr = ctx.go([f'bundle.write {b}' for _, b in specs])
         for (name, _), w_ in zip(specs, wr):
             if not (w_ and w_.startswith('ok ')): continue
